@@ -56,17 +56,25 @@ impl SixelParser {
             self.parse_char(ch)?;
         }
         self.parse_char('#')?;
+        // rows grow independently while decoding: pad every row to the longest one so that the image is a rectangle
+        let mut row_len = 0;
+        for line in &self.picture_data {
+            if line.len() > row_len {
+                row_len = line.len();
+            }
+        }
         let mut picture_data = Vec::new();
         for y in 0..self.height() {
             let line = &self.picture_data[y as usize];
             picture_data.extend(line);
+            picture_data.resize(picture_data.len() + (row_len - line.len()), 0);
         }
         Ok(Sixel {
             position: self.pos,
             vertical_scale: self.vertical_scale,
             horizontal_scale: self.horizontal_scale,
             picture_data,
-            size: (self.width(), self.height()).into(),
+            size: ((row_len / 4) as i32, self.height()).into(),
         })
     }
 
